@@ -25,6 +25,9 @@ func checkC16(c *Ctx) {
 	c.Rule("C16.3", "fresh record per event: the record whose address is stored in a bucket is allocated inside the loop body", 1)
 	c.Rule("C16.6", "no reordering: channel buckets are not sorted; the meta bucket is sorted by a key (absolute tick = running sum of unsigned deltas) in which it is already non-decreasing", 2)
 
+	c.Rule("C16.7", "Track.Add / Close store the delta they are given (no clamping or narrowing: the conversion re-deltas from absolute ticks, so a gap on a target track can exceed any single source delta) (= C01.7)", 5)
+	c.include(checkC01, map[string]string{"C01.7": "C16.7"})
+
 	smfT := p.namedType("smf", "SMF")
 	if smfT == nil {
 		c.Unk("C16.1", "smf.SMF", "-", "not found")
